@@ -210,6 +210,132 @@ func genHard(t *rapid.T) Case {
 	return c
 }
 
+// ---- relaxed pigeonhole: rounds large enough for restarts, truth known by construction
+
+// PHPCase: PHP(holes+1, holes) where every clause j carries a relaxation literal r_j (as MUS extraction does).
+// Each round assumes -r_j for every clause but those of Relax[round], for which r_j is assumed. The
+// problem with all clauses enforced is unsatisfiable; relaxing any single clause makes it satisfiable
+// (a pigeon may stay out, or two pigeons may share a hole): the truth of each round is known by construction.
+type PHPCase struct {
+	Holes int     `json:"holes"`
+	Relax [][]int `json:"relax"` // per round: indexes of the relaxed clauses
+	NbMax int     `json:"nbmax,omitempty"`
+}
+
+func phpClauses(holes int) [][]int {
+	pigeons := holes + 1
+	v := func(p, h int) int { return p*holes + h + 1 }
+	var cls [][]int
+	for p := 0; p < pigeons; p++ {
+		var c []int
+		for h := 0; h < holes; h++ {
+			c = append(c, v(p, h))
+		}
+		cls = append(cls, c)
+	}
+	for h := 0; h < holes; h++ {
+		for p := 0; p < pigeons; p++ {
+			for q := p + 1; q < pigeons; q++ {
+				cls = append(cls, []int{-v(p, h), -v(q, h)})
+			}
+		}
+	}
+	return cls
+}
+
+func checkPHP(c PHPCase, o *vf.Obs) error {
+	gs.Arm(c.NbMax, 50_000_000)
+	defer gs.Arm(0, 0)
+	base := phpClauses(c.Holes)
+	n := (c.Holes + 1) * c.Holes
+	relaxed := oracle.CloneCNF(base)
+	for j := range relaxed {
+		relaxed[j] = append(relaxed[j], n+j+1)
+	}
+	s := solver.New(solver.ParseSliceNb(oracle.CloneCNF(relaxed), n+len(base)))
+	o.Class(fmt.Sprintf("holes-%d", c.Holes))
+	sawBoth := [2]bool{}
+	for r, rel := range c.Relax {
+		isRel := map[int]bool{}
+		for _, j := range rel {
+			isRel[j] = true
+		}
+		var as []solver.Lit
+		for j := range base {
+			l := -(n + j + 1)
+			if isRel[j] {
+				l = -l
+			}
+			as = append(as, solver.IntToLit(int32(l)))
+		}
+		truth := len(rel) > 0
+		if ast := s.Assume(as); ast == solver.Unsat && truth {
+			return fmt.Errorf("round %d: Assume = Unsat although clause(s) %v are relaxed (satisfiable by construction)", r, rel)
+		}
+		st := s.Solve()
+		if (st == solver.Sat) != truth {
+			return fmt.Errorf("round %d: Solve = %v with relaxed clauses %v; pigeonhole with %d holes is satisfiable iff a clause is relaxed", r, st, rel, c.Holes)
+		}
+		sawBoth[map[bool]int{false: 0, true: 1}[truth]] = true
+		if st == solver.Sat {
+			model := s.Model()
+			m := oracle.MaskOf(model)
+			if len(model) != n+len(base) {
+				return fmt.Errorf("round %d: model has %d values, %d variables", r, len(model), n+len(base))
+			}
+			for j, cl := range relaxed {
+				want := isRel[j]
+				if got := model[n+j]; got != want {
+					return fmt.Errorf("round %d: model gives relaxation literal of clause %d the value %v, it was assumed %v", r, j, got, want)
+				}
+				_ = m
+				ok := false
+				for _, l := range cl {
+					v := l
+					if v < 0 {
+						v = -v
+					}
+					if (l > 0) == model[v-1] {
+						ok = true
+					}
+				}
+				if !ok {
+					return fmt.Errorf("round %d: model falsifies clause %d %v", r, j, cl)
+				}
+			}
+		}
+	}
+	o.ClassIf(s.Stats.NbRestarts > 0, "restart>0")
+	o.ClassIf(s.Stats.NbConflicts >= 100, "conflicts>=100")
+	if sawBoth[0] && sawBoth[1] {
+		o.Nontrivial()
+	}
+	return nil
+}
+
+func genPHP(t *rapid.T) PHPCase {
+	c := PHPCase{Holes: rapid.SampledFrom([]int{5, 6, 6, 6}).Draw(t, "holes")}
+	nc := len(phpClauses(c.Holes))
+	for r, k := 0, rapid.IntRange(2, 5).Draw(t, "rounds"); r < k; r++ {
+		var rel []int
+		if !gen.Chance(t, 2, 5, "none") {
+			for i, m := 0, rapid.IntRange(1, 2).Draw(t, "nrel"); i < m; i++ {
+				rel = append(rel, gen.Uniform(t, 0, nc-1, "j"))
+			}
+		}
+		c.Relax = append(c.Relax, rel)
+	}
+	if rapid.Bool().Draw(t, "low") {
+		c.NbMax = rapid.IntRange(20, 200).Draw(t, "limit")
+	}
+	return c
+}
+
+func init() {
+	vf.Register(vf.Sub[PHPCase]{Name: "relaxed-pigeonhole", Quick: 25, Thorough: 300, Gen: genPHP, Check: checkPHP, Floor: 0.3,
+		Rule: "pigeonhole PHP(6,5) / PHP(7,6) whose clauses each carry a relaxation literal (the way MUS extraction uses Assume); 2..5 rounds, each assuming every relaxation literal false except those of 0..2 drawn clauses; truth by construction: satisfiable iff a clause is relaxed; an Unsat round takes hundreds of conflicts, with restarts and clause-database reductions inside the round; Sat models are checked against every relaxed clause and every assumption; non-trivial = rounds of both verdicts"})
+}
+
 func init() {
 	tail := "; 1..6 rounds, each Assume(list of 0..5 literals: random, repeated, contradicting each other, contradicting the previous round, contradicting/repeating a unit clause) then Solve; oracle per round = truth table of base AND this round's assumptions only; non-trivial = >=2 rounds with different verdicts or a round after an Unsat round"
 	vf.Register(
